@@ -2,6 +2,7 @@
   C04 — lazy operator pipelines equal eager evaluation; hints never change results.
 -/
 import MocVerif.Lemmas.Hints
+import MocVerif.Lemmas.LastExact
 import MocVerif.Model.Params
 
 namespace Moc.C04
@@ -44,6 +45,32 @@ theorem not_hints (ub : Nat) (s : Src) (hs : s.HintOkAll) (cs : Canon s.items) (
 theorem degrade_hints (sh nd : Nat) (s : Src) : (degradeSrc sh nd s).HintOkAll := degradeSrc_hintOk sh nd s
 theorem check_hints (s : Src) (hs : s.HintOkAll) : (checkSrc s).HintOkAll ∧ (checkSrc s).items = s.items :=
   checkSrc_hintOk s hs
+
+/-- **`peek_last` is exact** (the documented contract: "the last range of the iterator, or at least a range
+    having the last range upper bound"): every node of every lazy operator tree whose leaves announce an exact
+    last range (or none) announces an exact last range (or none) — in particular a node that announces one
+    does yield ranges.  `xor` had copied the formula of `or` (the larger of the two ends), which is wrong
+    whenever both operands end at the same index (/repo "fix: XorRangeIter::peek_last"). -/
+theorem lazy_last_exact (q : Qty) (w : Nat) (h0 : 0 < q.nCellsMax w) (e : Expr)
+    (hl : e.LeavesOk q w) (hd : e.DepthsOk q w) (hx : e.LeavesLastExact) : (evalL q w e).LastExact :=
+  evalL_lastExact q w h0 e hl hd hx
+theorem or_last_exact (l r : Src) (hl : l.HintOkAll) (hr : r.HintOkAll) (el : l.LastExact) (er : r.LastExact)
+    (cl : Canon l.items) (cr : Canon r.items) : (orSrc l r).LastExact := orSrc_lastExact l r hl hr el er cl cr
+theorem xor_last_exact (l r : Src) (hl : l.HintOkAll) (hr : r.HintOkAll) (el : l.LastExact) (er : r.LastExact)
+    (cl : Canon l.items) (cr : Canon r.items) : (xorSrc l r).LastExact := xorSrc_lastExact l r hl hr el er cl cr
+theorem check_convert_last_exact (sh md : Nat) (s : Src) (e : s.LastExact) :
+    (checkSrc s).LastExact ∧ (convertSrc sh md s).LastExact :=
+  ⟨checkSrc_lastExact s e, convertSrc_lastExact sh md s e⟩
+/-- The executable judge of the exact-last contract is the predicate. -/
+theorem lastExactB_iff (s : Src) : s.lastExactB true = true ↔ s.LastExact := lastExactB_strict_iff s
+/-- What `xor([0..10], [5..10])` answered before the repair (ranges `[0..5]`, announced last range `0..10`) does
+    not meet the contract; a source that meets it (non-vacuity). -/
+example : ¬ (⟨0, [(0, 5)], some (0, 10), 0, none, []⟩ : Src).LastExact := by
+  intro h
+  obtain ⟨c, hc, he⟩ := h (0, 10) rfl
+  simp at hc; subst hc; simp at he
+example : (⟨0, [(0, 5), (7, 10)], some (2, 10), 0, none, []⟩ : Src).LastExact := by
+  intro q hq; exact ⟨(7, 10), rfl, by cases hq; rfl⟩
 
 /-- The serialiser's decision (`size_hint` min = max ⇒ stream with a pre-computed `NAXIS2`) is sound:
     whenever a consistent source advertises equal bounds, that number IS the number of ranges. -/
